@@ -11,9 +11,11 @@
    model uses off the model's run and [valid_advice] states that it is one the
    specification allows (a duplicate-free enumeration of exactly the names held,
    the unique name last). *)
-From DV Require Import Lib.Base Gen.Tables Wire.Names Registry.RegTypes Registry.Registry
-  Spec.NamesSpec Spec.RegistrySpec
-  Proofs.RegistryBase Proofs.RegistryInv Proofs.RegistryRefine Proofs.RegistryDisc Proofs.RegistryMain.
+From DV Require Import Lib.Base Gen.Tables Wire.Names Registry.RegTypes Registry.Registry Registry.Driver Registry.Transaction
+  Spec.NamesSpec Spec.RegistrySpec Spec.DriverSpec
+  Proofs.RegistryBase Proofs.RegistryInv Proofs.RegistryRefine Proofs.RegistryDisc Proofs.RegistryMain
+  Proofs.DriverBase Proofs.DriverMain Proofs.TransactionProofs.
+From DV Require Policy.Policy Spec.PolicySpec.
 Local Open Scope N_scope.
 
 (* ------------------------------------------------------------------------------------------
@@ -181,6 +183,117 @@ Theorem C04_no_assertion_reached : forall limit h e,
 Proof. exact no_fault_reachable. Qed.
 Print Assumptions C04_no_assertion_reached.
 
+(* ==========================================================================================
+   The driver layer (Registry/Driver.v): raw strings on the wire, the own-policy gate,
+   ReloadConfig, the query methods on raw argument strings; and the transaction layer
+   (Registry/Transaction.v).  A driver history is [admissible] if it has fewer than 2^31
+   events and its policy rules are as the configuration parser builds them (C06's rule_wf);
+   [dstate rules limit h] is the state after it. *)
+
+(* _dbus_string_append_int is injective, so are the unique names ":1.<minor>"; they start with ':' and
+   are therefore never requestable; in every reachable state two connections never have the same name,
+   and a name once handed out is never forgotten (so it is never handed out again) *)
+Theorem C04_unique_names :
+  (forall a b, ustr a = ustr b -> a = b) /\
+  (forall m, requestable (ustr m) = false) /\
+  (forall rules limit h, admissible rules h ->
+     forall c1 m1 c2 m2, In (c1, m1) (d_unique (dstate rules limit h)) -> In (c2, m2) (d_unique (dstate rules limit h)) ->
+     ustr m1 = ustr m2 -> c1 = c2) /\
+  (forall d e, exists ext, d_unique (fst (dstep d e)) = d_unique d ++ ext).
+Proof.
+  split; [exact ustr_inj|]. split; [exact ustr_not_requestable|]. split; [exact unique_names_reachable | exact names_only_grow].
+Qed.
+Print Assumptions C04_unique_names.
+
+(* the C registry is a hash keyed by strings, the model's table is indexed by abstract keys: on every
+   reachable state the rendering of the keys present is injective and total, and looking a string up in the
+   rendered table is looking its key up in the model's table *)
+Theorem C04_string_table_faithful : forall rules limit h, admissible rules h ->
+  let d := dstate rules limit h in
+  (forall k1 k2 q1 q2 s, lookup (b_services (d_bus d)) k1 = Some q1 -> lookup (b_services (d_bus d)) k2 = Some q2 ->
+                         kstr d k1 = Some s -> kstr d k2 = Some s -> k1 = k2) /\
+  (forall k q, lookup (b_services (d_bus d)) k = Some q -> exists s, kstr d k = Some s) /\
+  (forall s, option_map snd (slookup d s) = lookup (b_services (d_bus d)) (qkey (resolve d s))).
+Proof. exact string_table_reachable. Qed.
+Print Assumptions C04_string_table_faithful.
+
+(* every registry event at the driver level is the rendering of a step of the specification with the
+   own-policy gate (Spec/DriverSpec.v; the decision is C06's spec_can_own), and the refinement relation
+   carries on -- for every reachable state, i.e. every admissible history *)
+Theorem C04_driver_refines : forall rules limit h e, admissible rules h ->
+  let d := dstate rules limit h in
+  (exists s, R (d_bus d) s) /\
+  forall s, R (d_bus d) s ->
+  let (d', o) := dstep d (DReg e) in
+  let (s', o') := dspec_step as_implemented (d_rules d) s e (advice (d_bus d) e) in
+  o = render d' o' /\ R (d_bus d') s'.
+Proof.
+  intros rules limit h e Ha. split; [exact (refinement_exists_reachable rules limit h Ha) | exact (driver_refines_reachable rules limit h e Ha)].
+Qed.
+Print Assumptions C04_driver_refines.
+
+(* the gate: bus_rules_check_can_own decides as "the last matching rule" says; a registered caller that may
+   not own a (requestable) name gets AccessDenied and nothing changes -- whatever the queue of the name looks
+   like, before the limit is consulted *)
+Theorem C04_policy_gate :
+  (forall rules name, rules_wf rules = true -> check_can_own rules name = Some (spec_can_own rules name)) /\
+  (forall d c cn name flags,
+     find_conn (b_conns (d_bus d)) c = Some cn -> c_active cn = true -> requestable name = true ->
+     check_can_own (d_rules d) name = Some false ->
+     dstep d (DReg (EvRequest c name flags)) = (d, [(c, WErr WAccessDenied)])).
+Proof. split; [exact gate_decision | exact policy_refusal]. Qed.
+Print Assumptions C04_policy_gate.
+
+(* a RequestName / ReleaseName that is answered with an error -- not registered, bad syntax, reserved name,
+   policy, limit -- leaves the whole state as it was and nobody receives anything but that error *)
+Theorem C04_error_changes_nothing : forall rules limit h e c er, admissible rules h ->
+  (exists name flags, e = EvRequest c name flags) \/ (exists name, e = EvRelease c name) ->
+  In (c, WErr er) (snd (dstep (dstate rules limit h) (DReg e))) ->
+  dstep (dstate rules limit h) (DReg e) = (dstate rules limit h, [(c, WErr er)]).
+Proof. exact error_changes_nothing_reachable. Qed.
+Print Assumptions C04_error_changes_nothing.
+
+(* ReloadConfig: new rules and limit from now on; connections, queues and names stay *)
+Theorem C04_reload_keeps_names : forall rules limit h c rules' limit', admissible rules h ->
+  let d := dstate rules limit h in
+  let (d', o) := dstep d (DReload c rules' limit') in
+  (d' = d \/ (d_rules d' = rules' /\ b_limit (d_bus d') = limit' /\ o = [(c, WAck)])) /\
+  b_conns (d_bus d') = b_conns (d_bus d) /\ b_services (d_bus d') = b_services (d_bus d) /\ d_unique d' = d_unique d.
+Proof. exact reload_reachable. Qed.
+Print Assumptions C04_reload_keeps_names.
+
+(* GetNameOwner / NameHasOwner / ListQueuedOwners / ListNames on a RAW argument string, asked by a registered
+   connection in any reachable state: the answer is what the string-keyed table says ([owner_answer] etc. in
+   Proofs/DriverMain.v: the bus for its own name, the unique name of the head / of every member of the queue
+   stored under that string, NameHasNoOwner if there is none -- also for syntactically invalid strings and for
+   unique names of connections that left or never existed); the state does not change; "Could not determine
+   unique name" (the FIXME in bus_driver_handle_get_service_owner) never happens *)
+Theorem C04_raw_queries : forall rules limit h c cn s, admissible rules h ->
+  let d := dstate rules limit h in
+  find_conn (b_conns (d_bus d)) c = Some cn -> c_active cn = true ->
+  dstep d (DGetNameOwner c s) = (d, [(c, owner_answer d s)]) /\
+  dstep d (DNameHasOwner c s) = (d, [(c, has_owner_answer d s)]) /\
+  dstep d (DListQueuedOwners c s) = (d, [(c, queued_answer d s)]) /\
+  owner_answer d s <> WErr WFailed /\ queued_answer d s <> WFault /\
+  (exists l, dstep d (DListNames c) = (d, [(c, WList l)]) /\ NoDup l /\
+     forall t, In t l <-> t = DBUS_SERVICE_DBUS_str \/ exists k q, In (k, q) (b_services (d_bus d)) /\ kstr d k = Some t).
+Proof. exact raw_queries_reachable. Qed.
+Print Assumptions C04_raw_queries.
+
+(* the transaction layer: whatever was staged with bus_transaction_send reaches each connected recipient
+   exactly, in staging order (so the reply, staged last, comes last), other transactions' messages in the
+   same lists are not touched; a cancelled transaction delivers nothing and restores the lists *)
+Theorem C04_transaction_fifo : forall connected tid ts0 ms, fresh tid ts0 ->
+  let ts := stage_all connected tid ts0 ms in
+  (forall c, to c (fst (texec tid ts)) = staged_for connected c ms) /\
+  (forall c, snd (texec tid ts) c = tp ts0 c) /\
+  (forall c, tcancel tid ts c = tp ts0 c).
+Proof.
+  intros connected tid ts0 ms Hf. cbn zeta. destruct (transaction_fifo connected tid ts0 ms Hf) as [A B].
+  split; [exact A|]. split; [exact B | exact (transaction_cancel connected tid ts0 ms Hf)].
+Qed.
+Print Assumptions C04_transaction_fifo.
+
 (* ------------------------------------------------------------------------------------------
    non-vacuity *)
 Definition ex_history : list event :=
@@ -213,3 +326,23 @@ Proof. vm_compute. reflexivity. Qed.
 (* names that are refused / accepted *)
 Example ex_requestable : requestable nameA = true. Proof. reflexivity. Qed.
 Example ex_unique_refused : requestable [58; 49; 46; 53] = false. Proof. reflexivity. Qed.
+
+(* driver layer: own_prefix "a.b" lets a connection own a.b and a.b.c but not a.bc; the refusal is AccessDenied;
+   after ReloadConfig with "deny own=a.b" the owner keeps the name but cannot refresh its flags *)
+Definition allow_prefix_ab : prule :=
+  Policy.Policy.mkRule Policy.Policy.KOwn true 0 None None None None (Some nameA) 0 0 false false false Policy.Policy.TAny true.
+Definition deny_ab : prule :=
+  Policy.Policy.mkRule Policy.Policy.KOwn false 0 None None None None (Some nameA) 0 0 false false false Policy.Policy.TAny false.
+Definition dex_history : list devent :=
+  [DReg EvConnect; DReg (EvHello 0); DReg EvConnect; DReg (EvHello 1);
+   DReg (EvRequest 0 nameA 0); DReg (EvRequest 1 [97; 46; 98; 46; 99] 0); DReg (EvRequest 1 [97; 46; 98; 99] 0);
+   DReload 0 [allow_prefix_ab; deny_ab] 512; DReg (EvRequest 0 nameA 1); DGetNameOwner 1 nameA; DGetNameOwner 1 [58; 49; 46; 49]; DGetNameOwner 1 [58; 49; 46; 50]].
+Example ex_admissible : admissible [allow_prefix_ab] dex_history.
+Proof. repeat split; vm_compute; try reflexivity. discriminate. Qed.
+Example ex_driver_outputs :
+  skipn 4 (snd (drun (dinit [allow_prefix_ab] 512) dex_history)) =
+  [ [(0, WAcquired nameA); (0, WU32 1)];  [(1, WAcquired [97; 46; 98; 46; 99]); (1, WU32 1)];  [(1, WErr WAccessDenied)];
+    [(0, WAck)];  [(0, WErr WAccessDenied)];
+    [(1, WStr [58; 49; 46; 48])];  [(1, WStr [58; 49; 46; 49])];  [(1, WErr WNameHasNoOwner)] ].
+Proof. vm_compute. reflexivity. Qed.
+Example ex_ustr : ustr 10 = [58; 49; 46; 49; 48]. Proof. reflexivity. Qed.
